@@ -23,7 +23,7 @@
 // Record (one per round):
 //   {"case","fam":"blockmut","round","kind":"round"|"tx64","place":"tip"|"sibling","order":<pattern>,"hash","root":hex32 (internal order),
 //    "txs":[hex of distinct txs, full serialization],"genuine":[indices],"segwit":true,
-//    "dl":[{"who":"v"|"g"|"h"|"x"|"y"|"c","vk":<kind>,"vtx":[indices],"force":b,"obj":n,"ret":b,"nchk":n,"res":<result name>,"reason":s,
+//    "dl":[{"who":"v"|"g"|"h"|"x"|"y"|"c"|"o"|"b","vk":<kind>,"vtx":[indices],"force":b,"obj":n,"ret":b,"nchk":n,"res":<result name>,"reason":s,
 //           "ex":b,"data":b,"failed":b,"valid":n,"active":b,"tip_same":b,"tip_is":b,"ibm":b}...]}
 //
 // params: rounds (default 8), maxtx (default 7)
@@ -486,7 +486,7 @@ struct Hist {
         j.str("who", who).str("vk", kind).raw("vtx", tt.Order(*blk)).b("force", force).i("obj", obj).b("ret", r.ret).u("nchk", r.n_checked)
             .str("res", r.verdict ? r.verdict->ResultName() : "NONE").str("reason", r.verdict ? r.verdict->reason : "");
         IdxJson(j, hash, tip_before);
-        j.b("ibm", ibm);
+        j.b("ibm", ibm).hex("root", blk->hashMerkleRoot);
         if (genuine && node.Index(hash).exists) led.NoteHeader(genuine);
         vh::log().obs("variant_deliveries");
         return j.done();
@@ -618,6 +618,22 @@ VH_CMD(blockmut)
             };
             if (vs.empty()) throw std::runtime_error("no variant generated");
             h.Clock(B);
+            if (GetWitnessCommitmentIndex(G) != NO_WITNESS_COMMITMENT && rng.chance(1, 2)) {
+                // a block of its own (own header, correct merkle root, valid proof of work) whose commitment is wrong in ONE byte:
+                // first, last or a random byte of the 32 (not a same-header variant; statement, first sentence)
+                auto o = std::make_shared<CBlock>(Fresh(G));
+                CMutableTransaction cb(*o->vtx[0]);
+                const int ci = GetWitnessCommitmentIndex(G);
+                const int which = (int)rng.below(3);
+                const size_t pos = which == 0 ? 6 : which == 1 ? 37 : 6 + rng.below(32);
+                cb.vout[ci].scriptPubKey[pos] ^= (unsigned char)(1u << rng.below(8));
+                o->vtx[0] = MakeTransactionRef(cb);
+                o->hashMerkleRoot = ModelRoot(*o);
+                o->nNonce = 0;
+                BlockBuilder::Solve(*o);
+                dl.push_back(h.SendRaw("o", which == 0 ? "own-badcommit-first" : which == 1 ? "own-badcommit-last" : "own-badcommit-rand", o, nullptr, tt, rng.coin(), 0));
+                vh::log().obs("own_header_badcommit");
+            }
             if (order == "VG") {
                 send_v(vs[0], 0);
             } else if (order == "HVG") {
